@@ -39,6 +39,9 @@ class W:
         key = (variant, json.dumps(prepare, sort_keys=True) if prepare else None, tuple(sorted(opts.items())))
         w = self.workers.get(key)
         if w is None:
+            opts = dict(opts)
+            if opts.pop("env_extra_key", None) == "nosym":
+                opts["env_extra"] = {"ASAN_SYMBOLIZER_PATH": "/nonexistent", "NOSYM": "1"}
             w = Worker(variant, **opts)
             self.workers[key] = w
         if w.p is None or w.p.poll() is not None:
